@@ -189,6 +189,7 @@ def parseKind (kind : String) (ws : List String) : Option (Kind × List String) 
     let (a, ws) ← pRef ws; let (b, ws) ← pRef ws; let (v, ws) ← pOf jvar ws
     -- the keyed API offers inner and outer only: anything but `inner` is built as `join_outer`
     pure (.kjoin a b (if v == .inner then .inner else .outer), ws)
+  | "kmerge" => do let (a, ws) ← pRef ws; let (b, ws) ← pRef ws; pure (.kmerge a b, ws)
   | "route" => do
     let (a, ws) ← pRef ws
     let ps ← ws.mapM parseRoutePred
@@ -226,7 +227,7 @@ def kindName : Kind → String
   | .gbFold .. => "gbfold" | .gbReduce .. => "gbreduce" | .gbSum .. => "gbsum" | .gbCount .. => "gbcount"
   | .kwin .. => "kwin" | .merge .. => "merge" | .zip .. => "zip"
   | .join _ _ v s .. => s!"join-{repr v}-{repr s}".replace "Noir.Pipe.JVar." "" |>.replace "Noir.Pipe.Ship." ""
-  | .kjoin .. => "kjoin" | .route .. => "route" | .replay .. => "replay" | .iterate .. => "iterate"
+  | .kjoin .. => "kjoin" | .kmerge .. => "kmerge" | .route .. => "route" | .replay .. => "replay" | .iterate .. => "iterate"
   | .sink _ => "sink"
 
 partial def bodyTags (pre : String) : List BStage → List String
@@ -243,6 +244,19 @@ partial def bodyTags (pre : String) : List BStage → List String
        [s!"body:iterate-in-{pre}", "body:inner-iterate-items+state"] ++ bodyTags "iterate" b
      | _ => []) ++ bodyTags pre ss
 
+/-- the code path that established the co-partitioning of the keyed stream `r` -/
+partial def keyedPath (job : Job) (r : Ref) : String :=
+  match job.find? (·.id == r.id) with
+  | none => "?"
+  | some n => match n.kind with
+    | .kmap a .. | .kfilter a .. | .kfold a _ | .kreduce a _ | .kwin a .. => keyedPath job a
+    | .groupBy .. => "groupby"
+    | .gbFold .. | .gbReduce .. | .gbSum .. | .gbCount .. => "aggregate"
+    | .join .. => "joinhash"
+    | .keyBy .. => "keyby"
+    | .kjoin .. | .kmerge .. => "kbin"
+    | _ => "?"
+
 /-- distribution tags of the newer generator features -/
 def featureTags (job : Job) : List String :=
   (job.flatMap fun n => match n.kind with
@@ -251,6 +265,8 @@ def featureTags (job : Job) : List String :=
     | .repl _ .host | .repart _ .host _ _ => ["rep:host"]
     | .repl _ (.lim _) => ["rep:limited-forward"]
     | .kwin _ _ _ g => [if g == .cnt then "kwin:cnt" else "kwin:ordered-agg"]
+    | .kjoin a b _ => ["kbin", s!"kbin:{keyedPath job a}+{keyedPath job b}"]
+    | .kmerge a b => ["kbin", s!"kbin:{keyedPath job a}+{keyedPath job b}", "kbin:merge"]
     | _ => []).eraseDups
 
 /-! ### the region of the known engine defect F18 (`iterate` + all-to-all stage in its body) -/
